@@ -271,6 +271,60 @@ fn check_lookups(sm: &SourceMap, obs: &mut Obs) -> Result<(), String> {
     Ok(())
 }
 
+/// `sm` composed with an identity adjustment that has a token at column 0, at every token's column and a
+/// little to the right of it, on every line with tokens.
+fn cut_up(sm: &SourceMap) -> SourceMap {
+    let mut at: std::collections::BTreeSet<(u32, u32)> = Default::default();
+    for t in sm.tokens() {
+        let (l, c) = (t.get_dst_line(), t.get_dst_col());
+        at.insert((l, 0));
+        at.insert((l, c));
+        at.insert((l, c.saturating_add(1 + c % 3)));
+    }
+    let mut b = sourcemap::SourceMapBuilder::new(None);
+    let s = b.add_source("cut.js");
+    for (l, c) in at {
+        b.add_raw(l, c, l, c, Some(s), None, false);
+    }
+    let adj = b.into_sourcemap();
+    let mut out = sm.clone();
+    out.adjust_mappings(&adj);
+    out
+}
+
+/// (ii) independent reading of the emitted mappings + rangeMappings, (iii) flags after serialise + decode,
+/// (iv) lookups on the map and on the decoded one.
+fn written_and_read_back(sm: &SourceMap, stage: &str, obs: &mut Obs) -> Result<(), Verdict> {
+    let fail = |m: String| Verdict::Fail(format!("{stage}{m}"));
+    let bytes = ser_sm(sm).map_err(&fail)?;
+    let v: Value = serde_json::from_slice(&bytes).map_err(|e| fail(format!("output is not JSON: {e}")))?;
+    if let Err(e) = check_serialized_regular(sm, &v, true) {
+        return Err(fail(format!("{e}; output={}", String::from_utf8_lossy(&bytes))));
+    }
+    let d1 = match dec(&bytes) {
+        Ok(sourcemap::DecodedMap::Regular(d)) => d,
+        Ok(_) => return Err(fail("kind changed".into())),
+        Err(e) => return Err(fail(format!("{e}; written={}", String::from_utf8_lossy(&bytes)))),
+    };
+    let a = dedup_consecutive(&obs_map(sm).tokens);
+    let b = dedup_consecutive(&obs_map(&d1).tokens);
+    if a != b {
+        let i = a.iter().zip(&b).position(|(x, y)| x != y).unwrap_or(a.len().min(b.len()));
+        return Err(fail(format!(
+            "range flags/tokens changed by serialise+decode at token {i}: before {:?} after {:?}; written={}",
+            a.get(i),
+            b.get(i),
+            String::from_utf8_lossy(&bytes)
+        )));
+    }
+    for (which, map) in [("built", sm), ("decoded", &d1)] {
+        if let Err(e) = check_lookups(map, obs) {
+            return Err(fail(format!("{which} map: {e}")));
+        }
+    }
+    Ok(())
+}
+
 fn check(c: &Case, obs: &mut Obs) -> Verdict {
     let m = &c.map;
     // (i) decoder side: independently written document (also the Doc route of build())
@@ -298,40 +352,16 @@ fn check(c: &Case, obs: &mut Obs) -> Verdict {
         Err(e) => return Verdict::Fail(e),
     };
     ensure_eq!(obs_map(&sm).canonical().tokens, want.tokens, "built map differs from the model ({:?})", m.effective_route());
-    // (ii) encoder side: independent reading of mappings + rangeMappings
-    let bytes = match ser_sm(&sm) {
-        Ok(b) => b,
-        Err(e) => return Verdict::Fail(e),
-    };
-    let v: Value = match serde_json::from_slice(&bytes) {
-        Ok(v) => v,
-        Err(e) => return Verdict::Fail(format!("output is not JSON: {e}")),
-    };
-    if let Err(e) = check_serialized_regular(&sm, &v, true) {
-        return Verdict::Fail(format!("{e}; output={}", String::from_utf8_lossy(&bytes)));
+    // (ii)-(iv) on the built map, then on the same map taken through adjust_mappings with an
+    // order-preserving adjustment that cuts every token's stretch (each piece keeps the flag)
+    if let Err(v) = written_and_read_back(&sm, "", obs) {
+        return v;
     }
-    // (iii) round trip keeps the flags
-    let d1 = match dec(&bytes) {
-        Ok(sourcemap::DecodedMap::Regular(d)) => d,
-        Ok(_) => return Verdict::Fail("kind changed".into()),
-        Err(e) => return Verdict::Fail(format!("{e}; written={}", String::from_utf8_lossy(&bytes))),
-    };
-    let a = dedup_consecutive(&obs_map(&sm).tokens);
-    let b = dedup_consecutive(&obs_map(&d1).tokens);
-    if a != b {
-        let i = a.iter().zip(&b).position(|(x, y)| x != y).unwrap_or(a.len().min(b.len()));
-        return Verdict::Fail(format!(
-            "range flags/tokens changed by serialise+decode at token {i}: before {:?} after {:?}; written={}",
-            a.get(i),
-            b.get(i),
-            String::from_utf8_lossy(&bytes)
-        ));
-    }
-    // (iv) lookups on the built map and on the decoded one
-    for (which, map) in [("built", &sm), ("decoded", &d1)] {
-        if let Err(e) = check_lookups(map, obs) {
-            return Verdict::Fail(format!("{which} map: {e}"));
-        }
+    let cut = cut_up(&sm);
+    let more = cut.tokens().filter(|t| t.is_range()).count() > sm.tokens().filter(|t| t.is_range()).count();
+    obs.class_if(more, "adjust_mappings-multiplied-the-range-tokens");
+    if let Err(v) = written_and_read_back(&cut, "after adjust_mappings: ", obs) {
+        return v;
     }
     // classes
     let mut by_line: std::collections::BTreeMap<u32, Vec<&MTok>> = Default::default();
@@ -397,7 +427,7 @@ pub const DEF: PropertyDef = PropertyDef {
     rule: "exhaustive_small: every shape with <= 3 (thorough 4) lines x <= 4 tokens per line x every subset of range flags x {consecutive, \
            gapped lines}, routes cycled. random: 1..7 lines with gaps, 0..45(90), sometimes 60..150(400) or 255..1025 tokens per line with token counts forced onto 15..18 and \
            31..34, exact duplicates, sourceless range tokens, forced first/last/all-range lines. Oracles: decode of an independently written \
-           document, independent reading of the emitted mappings+rangeMappings, flags after ser+decode, lookup shift model. Random maps carry contents / root / ignore list / debug id / file next to the range flags; on every looked-up token (get_src_line,get_src_col), get_src(), to_tuple() and the DecodedMap-level lookup must agree. Non-trivial = \
+           document, independent reading of the emitted mappings+rangeMappings, flags after ser+decode, lookup shift model; the last three again on the map composed (adjust_mappings) with an identity adjustment that cuts every stretch into pieces. Random maps carry contents / root / ignore list / debug id / file next to the range flags; on every looked-up token (get_src_line,get_src_col), get_src(), to_tuple() and the DecodedMap-level lookup must agree. Non-trivial = \
            >= 1 range and >= 1 non-range token on >= 2 lines",
     assumptions: &[
         "documents are written without empty segments (how a range bit counts empty segments is not stated)",
